@@ -144,6 +144,11 @@ func loadAddr(i *interpreter, T types.Type, addr value) value {
 		if a == nil {
 			panic(targetPanic{"invalid memory address or nil pointer dereference"})
 		}
+		if i.tree != nil {
+			if _, shared := i.tree.shared[a]; shared {
+				return i.tree.cellOp(i.curFrame, "load", a, nil, true, "")
+			}
+		}
 		return load(T, a)
 	case symElemPtr:
 		return a.load(i)
@@ -156,6 +161,12 @@ func storeAddr(i *interpreter, T types.Type, addr value, v value) {
 	case *value:
 		if a == nil {
 			panic(targetPanic{"invalid memory address or nil pointer dereference"})
+		}
+		if i.tree != nil {
+			if _, shared := i.tree.shared[a]; shared {
+				i.tree.cellOp(i.curFrame, "store", a, []value{v}, true, "")
+				return
+			}
 		}
 		store(T, a, v)
 		return
